@@ -109,6 +109,28 @@ pub fn replay_reshape(case: &Value, rep: &mut Report) {
                     return;
                 }
             }
+            // every 3-D reading the specification lists: dimensions as requested, regular, row-major
+            for view in step["views"].as_array().map(|a| a.as_slice()).unwrap_or(&[]) {
+                let dims = usizes(view);
+                rep.checks += 1;
+                match guarded(|| after.get_triple(&Shape::Triple(dims[0], dims[1], dims[2]))) {
+                    Ok(v) => {
+                        let vt = Tensor::triple(v);
+                        if data_dims(&vt.data) != dims || !data_regular(&vt.data) {
+                            rep.mismatch("C14", "get_triple_shape", &id, json!({"step": i, "requested": dims, "observed": data_dims(&vt.data)}), case);
+                            return;
+                        }
+                        if let Some(d) = diff_flat_exact(&flat(&vt), &want_flat) {
+                            rep.mismatch("C14", "get_triple_not_row_major", &id, json!({"step": i, "requested": dims, "diff": d}), case);
+                            return;
+                        }
+                    }
+                    Err(e) => {
+                        rep.mismatch("C14", "get_triple_panic", &id, json!({"step": i, "requested": dims, "panic": e}), case);
+                        return;
+                    }
+                }
+            }
             if want_shape != shape_dims(&t.shape) {
                 interesting = true;
             }
@@ -183,7 +205,12 @@ pub fn record_reshape(seed: u64, tier: &str, trace: &mut Vec<Value>, rep: &mut R
 
 /// Tensor from the specification's record: {"rank": r, "data": nested} or {"rank": 0, "parts": [...]}.
 pub fn spec_tensor(v: &Value) -> Tensor {
-    if v["rank"].as_u64() == Some(0) {
+    if v["rank"].as_i64() == Some(-1) {
+        // list with optional entries; an absent entry is {"rank": -2}
+        Tensor::nestedoptional(
+            v["parts"].as_array().unwrap().iter().map(|p| if p["rank"].as_i64() == Some(-2) { None } else { Some(spec_tensor(p)) }).collect(),
+        )
+    } else if v["rank"].as_u64() == Some(0) {
         Tensor::nested(v["parts"].as_array().unwrap().iter().map(spec_tensor).collect())
     } else {
         tensor_from(&v["data"])
@@ -191,7 +218,28 @@ pub fn spec_tensor(v: &Value) -> Tensor {
 }
 
 fn diff_spec_tensor(t: &Tensor, want: &Value) -> Option<String> {
-    if want["rank"].as_u64() == Some(0) {
+    if want["rank"].as_i64() == Some(-1) {
+        let parts = match &t.data {
+            neurons::tensor::Data::NestedOptional(p) => p,
+            _ => return Some("expected a list with optional entries".to_string()),
+        };
+        let wparts = want["parts"].as_array().unwrap();
+        if parts.len() != wparts.len() || shape_dims(&t.shape) != vec![wparts.len()] {
+            return Some("nested length".to_string());
+        }
+        for (k, (p, w)) in parts.iter().zip(wparts.iter()).enumerate() {
+            match (p, w["rank"].as_i64() == Some(-2)) {
+                (None, true) => (),
+                (Some(p), false) => {
+                    if let Some(d) = diff_spec_tensor(p, w) {
+                        return Some(format!("entry {}: {}", k, d));
+                    }
+                }
+                _ => return Some(format!("entry {}: presence differs", k)),
+            }
+        }
+        None
+    } else if want["rank"].as_u64() == Some(0) {
         let parts = match &t.data {
             neurons::tensor::Data::Nested(p) => p,
             _ => return Some("expected a nested tensor".to_string()),
@@ -301,7 +349,8 @@ pub fn replay_arith(case: &Value, rep: &mut Report, rng: &mut Rng) {
             }
             interesting = true;
             // Float mode: same operation and shapes, harness-chosen floats, every element one IEEE operation.
-            if matches!(op, "add" | "sub" | "mul" | "hadamard" | "div" | "mean" | "clamp") {
+            // (not for lists with optional entries: their element positions depend on the presence patterns)
+            if matches!(op, "add" | "sub" | "mul" | "hadamard" | "div" | "mean" | "clamp") && !matches!(acc.data, neurons::tensor::Data::NestedOptional(_)) {
                 let fa = same_shape_random(&acc, rng);
                 let fargs: Vec<Tensor> = args.iter().map(|t| same_shape_random(t, rng)).collect();
                 match apply_arith(&fa, op, &fargs, &step["extra"]) {
